@@ -32,7 +32,7 @@ static void dump_to(var c, char* buf, size_t cap) {
       size_t n = len(c); PUT("#%zu{", n);
       for (int64_t k = -2; k <= N + 40; k++) { char kb[32]; snprintf(kb, sizeof kb, "k%" PRId64, k); var kk = $S(kb); if (mem(c, kk)) PUT("%s=%s,", kb, c_str(get(c, kk))); }
       PUT("}"); break; }
-    case 'S': PUT("#%zu\"%s\"", len(c), c_str(c)); break;
+    case 'S': case 'Z': PUT("#%zu\"%s\"", len(c), c_str(c)); break;
     case 'G': case 'H': case 'J': case 'V': { size_t n = len(c); PUT("#%zu[", n); size_t k = 0;
       foreach (e in c) { PUT("%s%" PRId64, k ? "," : "", (int64_t)c_int(e)); if (++k > n + 3) break; } PUT("]"); break; }
   }
@@ -49,6 +49,14 @@ static var build(void) {
     case 'K': c = new_raw(Table, String, String);
       for (int64_t i = 1; i <= N; i++) { char kb[32], vb[32]; snprintf(kb, 32, "k%" PRId64, i); snprintf(vb, 32, "v%" PRId64, i); set(c, $S(kb), $S(vb)); } break;
     case 'S': { c = new_raw(String, $S("")); for (int64_t i = 0; i < N; i++) { char b[2] = { (char)('a' + (i % 3)), 0 }; append(c, $S(b)); } break; }
+    case 'Z': {   /* a String that does NOT own its buffer (what $S(buf) builds): alloc class Stack over static storage */
+      static struct { struct Header h; struct String s; } zobj[2]; static char zbuf[2][160]; static int zi;
+      int j = zi++ & 1;
+      for (int64_t i = 0; i < N; i++) zbuf[j][i] = (char)('a' + (i % 3));
+      zbuf[j][N] = 0;
+      c = header_init(&zobj[j].h, String, AllocStack);
+      ((struct String*)c)->val = zbuf[j];
+      break; }
     case 'G': c = new_raw(Range, $I(0), $I(N)); break;
     case 'H': c = new_raw(Range, $I(5), $I(5 + N)); break;
     case 'J': c = new_raw(Range, $I(0), $I(3 * N), $I(3)); break;
@@ -122,6 +130,18 @@ static int run_scenario(var c, const char* sc) {
     if (IS("print_fewargs")) { print_to(c, 0, "%i and %i", $I(1)); return 1; }
     if (IS("print_fewargs_dollar")) { print_to(c, (int)N, "x%$y%$", $I(1)); return 1; }
   }
+  if (kind == 'Z') {   /* every operation that would have to reallocate or free the borrowed buffer is refused */
+    if (IS("stack_resize_shrink")) { if (N < 2) return 0; resize(c, (size_t)(N - 1)); return 1; }
+    if (IS("stack_resize_one"))    { if (N < 1) return 0; resize(c, 1); return 1; }
+    if (IS("stack_resize_same"))   { if (N < 1) return 0; resize(c, (size_t)N); return 1; }
+    if (IS("stack_resize_grow"))   { resize(c, (size_t)(N + 5)); return 1; }
+    if (IS("stack_resize_zero"))   { resize(c, 0); return 1; }
+    if (IS("stack_concat"))        { concat(c, $S("xy")); return 1; }
+    if (IS("stack_append"))        { append(c, $S("z")); return 1; }
+    if (IS("stack_assign"))        { assign(c, $S("hello")); return 1; }
+    if (IS("stack_print"))         { print_to(c, 0, "%i", $I(7)); return 1; }
+    if (IS("stack_destruct"))      { destruct(c); return 1; }
+  }
   if (IS("len_null"))       { len(NULL); return 1; }
   if (IS("unimplemented")) {
     if (kind == 'S') { push(c, $I(1)); return 1; }          /* String has no Push */
@@ -154,6 +174,7 @@ static void exercise(var c, char* buf, size_t cap) {
     case 'T': case 'R': set(c, $I(N + 20), $I(5)); set(c, $I(1), $I(6)); if (mem(c, $I(2))) rem(c, $I(2)); break;
     case 'K': set(c, $S("k30"), $S("n")); set(c, $S("k1"), $S("m")); if (mem(c, $S("k2"))) rem(c, $S("k2")); break;
     case 'S': append(c, $S("xy")); if (mem(c, $S("xy"))) rem(c, $S("x")); break;
+    case 'Z': if (mem(c, $S("b"))) rem(c, $S("b")); break;       /* rem works in place */
     default: break;
   }
   dump_to(c, buf, cap);
